@@ -13,6 +13,8 @@ R07.4  the coordinator commits its cache writes before the first broadcast when 
 from __future__ import annotations
 
 import ast
+import os
+import re
 
 from ..cfg import CFG, call_name
 from ..index import AnalysisError, get_index, norm
@@ -50,6 +52,8 @@ def run(chk: Check) -> None:
     run_phase_handover(chk, get_index())
     run_dedupe_state(chk, get_index())
     run_reload_meta(chk, get_index())
+    run_worker_options_order(chk, get_index())
+    run_worker_state_returned(chk, get_index())
     ix = get_index()
 
     # ---------------- R07.1
@@ -420,3 +424,73 @@ def run_reload_meta(chk: Check, ix) -> None:
         r9.ok(key, f.loc(c))
     else:
         r9.violation(key, f.loc(c), f"reload_meta() runs under {conds} over {loops}: some dependency modules keep the interface hash they had when the graph was sent, although they may have been re-checked since (their source unchanged, their own dependency changed); this worker then records the old hash in dep_hashes and a later build trusts it")
+
+
+def run_worker_options_order(chk: Check, ix) -> None:
+    """R07.10: the options a worker receives keep the order of the per-module config sections."""
+    r10 = chk.rule("R07.10", "Options.to_bytes (what build.py writes for the workers) serialises through cache.write_json, which writes dictionary keys sorted; per_module_options is a dictionary whose order is the order of the config file sections and decides which unstructured glob section wins (clone_for_module applies them in order, last wins), so to_bytes replaces it by an order-preserving form (a list) before writing and the worker rebuilds the dictionary from it: otherwise a worker applies another section than the coordinator and -n 2 reports what -n 0 does not", floor=3)
+    cache = ix.module("mypy.cache")
+    wj = cache.functions.get("write_json")
+    sorts = wj is not None and any(isinstance(c, ast.Call) and call_name(c) == "sorted" for c in ast.walk(wj.node))
+    tb = ix.func("mypy.options.Options.to_bytes")
+    uses_wj = any(isinstance(c, ast.Call) and call_name(c) == "write_json" for c in ast.walk(tb.node))
+    if not sorts or not uses_wj:
+        r10.ok("Options.to_bytes no longer goes through a key-sorting writer", tb.loc())
+        return
+    r10.ok("write_json writes dictionary keys sorted and Options.to_bytes uses it", wj.loc())
+    repl = [a for a in ast.walk(tb.node) if isinstance(a, ast.Assign) and isinstance(a.targets[0], ast.Subscript) and isinstance(a.targets[0].slice, ast.Constant) and a.targets[0].slice.value == "per_module_options" and isinstance(a.value, (ast.List, ast.ListComp, ast.Call))]
+    key = "to_bytes sends per_module_options in an order-preserving form"
+    if repl and not (isinstance(repl[0].value, ast.Call) and call_name(repl[0].value) in ("dict", "sorted")):
+        r10.ok(key, tb.loc(repl[0]), norm(repl[0].value)[:80])
+    else:
+        r10.violation(key, tb.loc(), "the snapshot's per_module_options dictionary is written by write_json with sorted keys: the worker sees the config sections in alphabetical order, and for unstructured glob patterns the last matching section wins")
+    wk = ix.func("mypy.build_worker.worker.main") if "mypy.build_worker.worker.main" in ix.functions else None
+    if wk is None:
+        raise AnalysisError("mypy.build_worker.worker.main not found")
+    back = [a for a in ast.walk(wk.node) if isinstance(a, ast.Assign) and isinstance(a.targets[0], ast.Subscript) and isinstance(a.targets[0].slice, ast.Constant) and a.targets[0].slice.value == "per_module_options" and isinstance(a.value, ast.Call) and call_name(a.value) == "dict"]
+    key = "the worker rebuilds the per_module_options dictionary from the order-preserving form"
+    if back or not repl:
+        r10.ok(key, wk.loc(back[0]) if back else wk.loc())
+    else:
+        r10.violation(key, wk.loc(), "to_bytes sends a list but the worker hands it to apply_changes as it is: per_module_options would be a list")
+
+
+def run_worker_state_returned(chk: Check, ix) -> None:
+    """R07.11: build-wide state that module processing adds to and the coordinator uses afterwards comes back from the workers."""
+    r11 = chk.rule("R07.11", "a container attribute of BuildManager that (a) functions reachable from module processing add to (`manager.X.add/update/...` outside BuildManager itself) and (b) build_inner reads after dispatch() returned, is build-wide state; in parallel mode the additions happen in the worker's own BuildManager, so X has to be named in what the worker sends back (mypy/build_worker/worker.py or a message class of mypy/build.py) or the coordinator works with an incomplete X", floor=1)
+    bi = ix.func("mypy.build.build_inner")
+    g = CFG(bi.node)
+    disp = [n for n in g.nodes if any(call_name(c) == "dispatch" for c in n.calls())]
+    if not disp:
+        raise AnalysisError("build_inner: dispatch() call not found")
+    after = g.reachable([m for m, lab in disp[0].succ], labels_excluded=()) | {disp[0]}
+    read_after: dict[str, ast.AST] = {}
+    for n in after:
+        exprs = list(getattr(n, "exprs", []) or [])
+        if getattr(n, "stmt", None) is not None and not exprs:
+            exprs = [n.stmt]
+        for e in exprs:
+            for a in ast.walk(e):
+                if isinstance(a, ast.Attribute) and isinstance(a.value, ast.Name) and a.value.id == "manager" and isinstance(a.ctx, ast.Load):
+                    read_after.setdefault(a.attr, a)
+    MUT = {"add", "update", "append", "extend", "setdefault"}
+    mutated: dict[str, str] = {}
+    for q, f in ix.functions.items():
+        if f.module.name != "mypy.build" or (f.cls is not None and f.cls.qualname == "mypy.build.BuildManager") or q == "mypy.build.build_inner":
+            continue
+        for c in ast.walk(f.node):
+            if isinstance(c, ast.Call) and isinstance(c.func, ast.Attribute) and c.func.attr in MUT and isinstance(c.func.value, ast.Attribute) and norm(c.func.value.value) in ("manager", "self.manager"):
+                mutated.setdefault(c.func.value.attr, q)
+    wtxt = ix.module("mypy.build_worker.worker").source if hasattr(ix.module("mypy.build_worker.worker"), "source") else open(os.path.join(ix.root, "mypy/build_worker/worker.py")).read()
+    btxt = open(os.path.join(ix.root, "mypy/build.py")).read()
+    msg_classes = "\n".join(seg for seg in re.findall(r"class \w+\(IPCMessage\):.*?(?=\nclass |\ndef )", btxt, flags=re.S))
+    n = 0
+    for attr in sorted(set(read_after) & set(mutated)):
+        n += 1
+        key = f"BuildManager.{attr}: added to during module processing ({mutated[attr].split('.')[-1]}), read by build_inner after dispatch, returned by workers"
+        if re.search(rf"\b{attr}\b", wtxt) or re.search(rf"\b{attr}\b", msg_classes):
+            r11.ok(key, bi.loc(read_after[attr]))
+        else:
+            r11.violation(key, bi.loc(read_after[attr]), f"`manager.{attr}` is filled by {mutated[attr]} wherever the module is processed; nothing in the worker or in the IPC message classes mentions it, so what a worker adds never reaches the coordinator that reads it here")
+    if n < 1:
+        raise AnalysisError(f"no BuildManager attribute is both mutated during processing and read after dispatch (read: {sorted(read_after)[:8]})")
